@@ -208,11 +208,12 @@ nharness! {
         let deadline = tokio::time::Instant::from_std(stubs::make_instant(deadline_s, deadline_n));
         sh::set_pending(&mut src, Some((th::ts_from_raw(req_origin), None, deadline)));
 
-        // leap bits 0, version 5; mode (request/response) symbolic; timescale UTC, flag byte 14 zero
-        let mode_response: bool = kani::any();
-        buf[0] = if mode_response { 0x2C } else { 0x2B };
+        // leap bits 0, version 5, mode response; timescale UTC, flags = synchronized (concrete: a
+        // symbolic byte here makes the header parse result, and every offset behind it, symbolic)
+        buf[0] = 0x2C;
         buf[12] = 0;
         buf[14] = 0;
+        buf[15] = 0x01;
         buf[48] = 0xF5;
         buf[49] = 0xFF;
         buf[50] = 0;
